@@ -233,8 +233,9 @@ func (r *Report) finish(evidenceDir, knownPath, replayDir string, want map[strin
 			}
 			isKnown := false
 			for _, f := range kf.Findings {
-				if f.Property == prop && f.Obligation == s.Name {
-					fmt.Printf("KNOWN-FINDING: property=%s %s %s\n", prop, s.Name, f.What)
+				if f.Obligation == s.Name {
+					// a listed finding is reported under the property it was recorded for, whichever check meets it
+					fmt.Printf("KNOWN-FINDING: property=%s %s %s\n", f.Property, s.Name, f.What)
 					isKnown = true
 					known++
 				}
